@@ -15,7 +15,7 @@ func GenerateScalarSubSetRule(containsAll profile.ScalarSetRule, iriExpander *mi
 	actualValuesVariable := profile.Genvar(fmt.Sprintf("%s_check", containsAll.Variable.Name))
 	containsAllVariable := profile.Genvar("containsAll")
 
-	rego = append(rego, "#  querying path: "+path.Source())
+	rego = append(rego, queryingPathComment(path.Source()))
 	pathResult := GeneratePropertySet(path, containsAll.Variable.Name, iriExpander)
 	rego = append(rego, fmt.Sprintf("%s_array = %s with data.sourceNode as %s", actualValuesVariable, pathResult.rule, containsAll.Variable.Name))
 	rego = append(rego, fmt.Sprintf("count(%s_array) != 0 # validation applies if property was defined", actualValuesVariable))
